@@ -407,6 +407,7 @@ class ForkClock(object):
         self.forked = False
         self.fork_n = None            # number of DB-API calls made before the fork
         self.fork_phase = None        # recorder phase (the scenario's session number) in which the fork happened
+        self.fork_in_session = False
 
     def _eq(self, a, b):
         return self.compare(a, b) if self.compare is not None else a == b
@@ -416,6 +417,8 @@ class ForkClock(object):
             self.forked = True
             self.fork_n = self.rec.n
             self.fork_phase = self.rec.phase
+            # did the current phase (session) already talk to the database? then the child inherits it half-way
+            self.fork_in_session = any(e.phase == self.rec.phase for e in self.rec.log)
 
     def getpid(self):
         self.getpid_calls += 1
